@@ -1,7 +1,7 @@
 (* C16 — tars2go: valid IDL yields compiling, conformant code; the tool always terminates. Statements only. *)
 From Coq Require Import String.
 From Coq Require Import List NArith ZArith.
-From TarsV Require Import Base.Hex Idl.Lexer Idl.LexerProofs Idl.Parser Idl.ParserProofs Idl.Corr.
+From TarsV Require Import Base.Hex Idl.Lexer Idl.LexerProofs Idl.Parser Idl.ParserProofs Idl.Corr Idl.Schema.
 Import ListNotations.
 Open Scope N_scope.
 
